@@ -53,6 +53,12 @@ int rf_wavheader_decode(const uint8_t *p, unsigned int sz, rf_wavheader_t *wh)
 			wh->channel_mask = rf_unpack_u32le(&pack);
 			rf_unpack_bytes(&pack, wh->sub_format, 16);
 		} else {
+			/* the extension size is a 16-bit quantity so a larger
+			 * fmt chunk is malformed (and must not be allowed to
+			 * wrap the cursor)
+			 */
+			if (wh->fmt_chunk_size - 18 > 0xffff)
+				return -EINVAL;
 			rf_unpack_bytes(&pack, NULL, (wh->fmt_chunk_size - 18));
 		}
 	}
